@@ -86,15 +86,13 @@ def add_path_fields(rng, members, engine):
     """DIMENSION members that keep some fields under a nested JSON path (default engine: path_field / Annotated[..., KeyPath];
     v1: AliasPath as field specifier / inside Annotated).  The dumper assembles such a class in a separate nested mapping, the tag has to
     be written into that one.
-    Kept out for now (genuine defects of the unchanged library, unrelated to tags):
-      * default engine: a CatchAll field captures the top-level key of a path  -> findings/v0-path-field-captured-by-catchall.py
-      * v1: two path fields below one top-level key are counted twice           -> findings/v1-aliaspath-raise-unknown-key.py
-    so path fields go to members without CatchAll (default engine) and use distinct top-level keys (v1)."""
+    Kept out for now (a genuine defect of the unchanged library, unrelated to tags): v1 — two path fields below one top-level key are
+    counted twice (findings/v1-aliaspath-shared-top-key-count.py), so v1 path fields use distinct top-level keys.  (Default engine: a
+    CatchAll field used to capture the top-level key of a path; repaired by a3460f9, members with CatchAll get path fields again —
+    findings/path-root-captured-by-catchall.py is the directed regression.)"""
     touched = []
     for m in members:
         fields = m['info']['fields']
-        if engine == 'v0' and any(f.get('catch_all') for f in fields):
-            continue
         if rng.random() < 0.45:
             continue
         cands = [f for f in fields if not f.get('catch_all') and f.get('init', True) and not f.get('factory')]
